@@ -1,7 +1,92 @@
 import GluonModel.Sexp
-open GluonModel
+import GluonModel.Chan
+open GluonModel GluonModel.Chan
+
+/-
+Requests:
+  (prog (lazies T…) (cells v…) (b1 OP…) (b2 OP…) (main OP…))   a whole program; answer
+        (<status> (tid kind a b)…)      status ∈ ok | hang | (err 1|2) | panic | nofuel
+  (trace (lazies T…) (cells v…) (tid OP)…)                      a raw primitive trace; answer the results
+  T  ::= (val v) | boom | (add k n)
+  OP ::= (send c v) | (recv c) | (load r) | (store r v) | (force k) | (forceu k) | (resume t) | yield
+-/
+
+def parseT : Sexp → Option TExpr
+  | .atom "boom" => some .boom
+  | .list [.atom "val", v] => v.toInt?.map .val
+  | .list [.atom "add", k, n] => do
+    let k ← k.toNat?
+    let n ← n.toInt?
+    pure (.add k n)
+  | _ => none
+
+def parseOp : Sexp → Option Op
+  | .atom "yield" => some .yield
+  | .list [.atom "send", c, v] => do pure (.prim (.send (← c.toNat?) (← v.toInt?)))
+  | .list [.atom "recv", c] => do pure (.prim (.recv (← c.toNat?)))
+  | .list [.atom "load", c] => do pure (.prim (.load (← c.toNat?)))
+  | .list [.atom "store", c, v] => do pure (.prim (.store (← c.toNat?) (← v.toInt?)))
+  | .list [.atom "force", k] => do pure (.prim (.force (← k.toNat?)))
+  | .list [.atom "forceu", k] => do pure (.forceU (← k.toNat?))
+  | .list [.atom "resume", t] => do pure (.resume (← t.toNat?))
+  | _ => none
+
+def tagged (tag : String) : Sexp → Option (List Sexp)
+  | .list (.atom t :: xs) => if t == tag then some xs else none
+  | _ => none
+
+def renderEv (e : Ev) : String :=
+  "(" ++ toString e.tid ++ " " ++ toString e.kind ++ " " ++ toString e.a ++ " " ++ toString e.b ++ ")"
+
+def renderRes : PRes → String
+  | .sent => "sent"
+  | .got v => "(got " ++ toString v ++ ")"
+  | .empty => "empty"
+  | .loaded v => "(loaded " ++ toString v ++ ")"
+  | .stored => "stored"
+  | .forced (.ok v) => "(ok " ++ toString v ++ ")"
+  | .forced (.err e) => "(err " ++ toString e.code ++ ")"
+  | .forced .pending => "pending"
+  | .forced .nofuel => "nofuel"
+
+def mkDecls (ts : List TExpr) : Decls := fun k => ts.getD k (.val 0)
+def mkCells (vs : List Int) : Nat → Int := fun k => vs.getD k 0
 
 def handle : List Sexp → String
-  | _ => "unimplemented"
+  | [.atom "prog", lz, cells, b1, b2, mn] =>
+    match tagged "lazies" lz, tagged "cells" cells, tagged "b1" b1, tagged "b2" b2, tagged "main" mn with
+    | some lz, some cells, some b1, some b2, some mn =>
+      match lz.mapM parseT, cells.mapM Sexp.toInt?, b1.mapM parseOp, b2.mapM parseOp, mn.mapM parseOp with
+      | some lz, some cells, some b1, some b2, some mn =>
+        let th : Nat → TSt := fun t => if t = 1 then .ready b1 else if t = 2 then .ready b2 else .done
+        let s0 : St := { p := PState.init (mkCells cells), th := th, log := [] }
+        let (s, o) := runOps (mkDecls lz) 4096 0 mn s0
+        let status := match o with
+          | .fin => "ok"
+          | .blocked => "hang"
+          | .failed e => "(err " ++ toString e.code ++ ")"
+          | .panic => "panic"
+          | .yielded _ => "yielded"
+          | .nofuel => "nofuel"
+        "(" ++ status ++ String.join (s.log.reverse.map (fun e => " " ++ renderEv e)) ++ ")"
+      | _, _, _, _, _ => "bad-request"
+    | _, _, _, _, _ => "bad-request"
+  | .atom "trace" :: lz :: cells :: steps =>
+    match tagged "lazies" lz, tagged "cells" cells with
+    | some lz, some cells =>
+      let step? : Sexp → Option (Nat × POp) := fun s =>
+        match s with
+        | .list [t, o] =>
+          match t.toNat?, parseOp o with
+          | some t, some (.prim p) => some (t, p)
+          | _, _ => none
+        | _ => none
+      match lz.mapM parseT, cells.mapM Sexp.toInt?, steps.mapM step? with
+      | some lz, some cells, some steps =>
+        let (_, rs) := runTrace (mkDecls lz) steps (PState.init (mkCells cells))
+        "(" ++ " ".intercalate (rs.map renderRes) ++ ")"
+      | _, _, _ => "bad-request"
+    | _, _ => "bad-request"
+  | _ => "bad-request"
 
 def main : IO Unit := driverLoop handle
